@@ -19,7 +19,7 @@ from .kernel import HarnessError, rng_for, stable_hash
 from .runner import Stats, digest_dump, load_known, match_known
 
 PROP = "C20"
-PLAN = {"quick": {"budget_s": 50, "max_runs": 600}, "thorough": {"budget_s": 900, "max_runs": 40000}}
+PLAN = {"quick": {"budget_s": 50, "max_runs": 600}, "thorough": {"budget_s": 900, "max_runs": 40000, "real_writers": True}}
 KINDS = ["status", "create_zip", "make_zip", "zipbuilder", "download", "render", "download_fetcher"]
 BUFSIZES = [1, 64, 4096, 8192, 1 << 20]
 
@@ -47,9 +47,14 @@ def _tree(rng, nfiles, maxsize):
     return files
 
 
-def draw_scenario(seed, i, kind=None):
+REAL_WRITER_EVERY = 23  # thorough tier: every 23rd scenario renders with the real rl / odf writer
+
+
+def draw_scenario(seed, i, kind=None, real_writers=False):
     rng = rng_for(seed, PROP, i)
     kind = kind or KINDS[i % len(KINDS)]
+    if real_writers and i % REAL_WRITER_EVERY == REAL_WRITER_EVERY - 1:
+        kind = "render_real"
     p = {"kind": kind, "index": i, "prev": rng.random() < 0.5,
          "bufsizes": [rng.choice(BUFSIZES) for _ in range(rng.randint(1, 4))],
          "name_seed": rng.getrandbits(32), "content_seed": rng.getrandbits(32),
@@ -90,6 +95,12 @@ def draw_scenario(seed, i, kind=None):
         p["bodies"] = [[rng.choice([100, 8192, 16384, 16384, 20000]) for _ in range(rng.randint(1, 5))] for _ in urls]
         p["max_connections"] = rng.choice([1, 2, 3, 10])
         p["prev_size"] = rng.randrange(1, 5000)
+    elif kind == "render_real":
+        p["writer"] = rng.choice(["rl", "rl", "odf"])
+        p["articles"] = rng.randint(1, 2)
+        p["prev_size"] = rng.randrange(1, 5000)
+        p["status_file"] = True
+        p["bufsizes"] = [rng.choice([8192, 1 << 20])]
     elif kind == "render":
         n = rng.randint(1, 8)
         p["chunks"] = [rng.choice([10, 1000, 8192, 9000, 100000]) for _ in range(n)]
@@ -413,6 +424,85 @@ class Scenario:
                   writer_info=None, keep_zip=None, language=None, args=())
         render.main.callback(**kw)
 
+    # -- render with the real writers (thorough tier) ------------------------------------
+    def prepare_render_real(self):
+        """A small collection zip is produced by a complete simulated fetch (vsim.fetchworld)
+        in a forked child, then the real mw-render main renders it with the real writer."""
+        ext = {"rl": "pdf", "odf": "odt"}[self.p["writer"]]
+        self.published["document"] = os.path.join(self.out, "book." + ext)
+        self.prev["document"] = _blob(self.crng, self.p["prev_size"]) if self.p["prev"] else None
+        self.published["status"] = os.path.join(self.out, "render-status.json")
+        self.prev["status"] = json.dumps({"status": "previous"}).encode() if self.p["prev"] else None
+        self.zip_path = os.path.join(self.src, "collection.zip")
+        os.makedirs(self.src, exist_ok=True)
+        pid = os.fork()
+        if pid == 0:
+            code = 1
+            try:
+                import logging
+                import warnings
+                logging.disable(logging.CRITICAL)
+                warnings.simplefilter("ignore")
+                from mwlib.apps.buildzip import ZipCreator
+                from . import fetchworld
+                bold = chr(39) * 3
+                pages = {}
+                mb = []
+                for k in range(self.p["articles"]):
+                    t = f"Article {k}"
+                    text = f"Text of {bold}{t}{bold} with {{{{T0}}}}.\n\n== Section ==\n" + "More text here. " * 40
+                    pages[t] = {"revs": [[2000 + k, text]], "users": ["Alice"], "anon": 1}
+                    mb.append({"title": t, "rev": None, "chapter": None})
+                pages["Template:T0"] = {"revs": [[1999, "templated words"]], "users": [], "anon": 0}
+                spec = {"lang": "en", "pages": pages, "images": {}, "metabook": mb}
+                res = fetchworld.run_fetch(spec, os.path.join(self.src, "nuwiki"), latencies=[], config={"conf": {}})
+                if res["violation"] is None:
+                    ZipCreator.create_zip(os.path.join(self.src, "nuwiki"), self.zip_path)
+                    code = 0
+            finally:
+                os._exit(code)
+        _, st = os.waitpid(pid, 0)
+        if os.waitstatus_to_exitcode(st) != 0 or not os.path.exists(self.zip_path):
+            raise HarnessError("could not build the collection zip for the real-writer scenario")
+        self.new["document"] = None  # judged structurally, see read_state
+
+    def produce_render_real(self, tracer):
+        import warnings
+        warnings.simplefilter("ignore")
+        from mwlib.apps import render
+        from mwlib.utils.status import Status
+        Status.stdout = None
+        render.init_tmp_cleaner = lambda: None
+        kw = dict(output=self.published["document"], posturl=None, getposturl=0, keep_tmpfiles=False,
+                  status_file=self.published["status"], config=self.zip_path, imagesize=1280, metabook=None,
+                  collectionpage=None, noimages=False, logfile=None, username=None, password=None, domain=None,
+                  title=None, subtitle=None, editor=None, script_extension=".php", writer=self.p["writer"],
+                  writer_options=None, list_writers=False, writer_info=None, keep_zip=None, language=None, args=())
+        render.main.callback(**kw)
+
+    def _read_real_document(self, path, data):
+        if self.p["writer"] == "rl":
+            try:
+                import pypdf
+                r = pypdf.PdfReader(path)
+                n = len(r.pages)
+                for pg in r.pages:
+                    pg.extract_text()
+                if n < 1:
+                    return ("garbage", "PDF without pages")
+                return ("new",)
+            except Exception as e:  # noqa: BLE001
+                return ("garbage", f"PDF does not parse ({type(e).__name__}: {e}); {len(data)} bytes")
+        try:
+            with zipfile.ZipFile(path) as zf:
+                if zf.testzip() is not None:
+                    return ("garbage", "ODF zip member fails its CRC")
+                import xml.dom.minidom
+                xml.dom.minidom.parseString(zf.read("content.xml"))
+            return ("new",)
+        except Exception as e:  # noqa: BLE001
+            return ("garbage", f"ODF document does not open ({type(e).__name__}: {e}); {len(data)} bytes")
+
     # -- child entry -------------------------------------------------------------------
     def produce(self, tracer):
         import logging
@@ -452,6 +542,8 @@ class Scenario:
                 return ("new",)
             except (zipfile.BadZipFile, OSError, EOFError, ValueError) as e:
                 return ("garbage", f"not a readable zip ({type(e).__name__}: {e}); {len(data)} bytes")
+        if self.p["kind"] == "render_real" and label == "document":
+            return self._read_real_document(path, data)
         if data == self.new[label]:
             return ("new",)
         return ("garbage", f"{label} has {len(data)} bytes, complete version has {len(self.new[label])}"
@@ -591,7 +683,7 @@ def worker(seed, widx, nworkers, plan, scratch):
     i = widx
     n = 0
     while n < per_worker and time.monotonic() < t_end and violation is None:
-        p = draw_scenario(seed, i)
+        p = draw_scenario(seed, i, real_writers=bool(plan.get("real_writers")))
         root = os.path.join(scratch, f"s{i}")
         os.makedirs(root)
         try:
